@@ -29,12 +29,14 @@ TIERS = {
     "quick": {"shards": 4, "cases": 1500, "timeout": 300, "params": {"case_timeout": 10}},
     "thorough": {"shards": 16, "cases": 5000, "timeout": 3000, "params": {"case_timeout": 10}},
 }
-FLOORS = {"quick": {"repositories_judged_next_to_a_pinned_component": 700,
+FLOORS = {"quick": {"commits_of_one_long_history": 1500,
+                    "repositories_judged_next_to_a_pinned_component": 700,
                     "distinct_nontrivial": 800, "commit_branch_decisions": 20000, "not_merged_listings": 1000,
                     "heads_inside_lower_branch": 150, "printed_reports_parsed": 1500,
                     "histories_tracking_a_remote_other_than_origin": 100,
                     "loose_refs_with_a_stale_packed_line": 50, "annotated_tags_in_loose_files": 50},
-          "thorough": {"repositories_judged_next_to_a_pinned_component": 2900,
+          "thorough": {"commits_of_one_long_history": 1500,
+                       "repositories_judged_next_to_a_pinned_component": 2900,
                        "distinct_nontrivial": 40000, "commit_branch_decisions": 1000000,
                        "not_merged_listings": 50000, "heads_inside_lower_branch": 8000,
                        "printed_reports_parsed": 80000,
